@@ -336,8 +336,11 @@ func c04ladder(c *an.Ctx) {
 			armInspect(f, cc, func(n ast.Node) bool {
 				if call, ok := n.(*ast.CallExpr); ok && an.CalleeName(info, call) == "(*jet.Template).newAdditiveExpr" && len(call.Args) == 5 {
 					if an.Str(call.Args[2]) == "nil" {
-						if oc, ok := an.Unparen(call.Args[3]).(*ast.CallExpr); ok && an.CalleeName(info, oc) == "(*jet.Template).operand" {
-							okSign = got["itemMinus"] && got["itemAdd"]
+						// the operand call itself, or a local that holds its result
+						for _, o := range valueOrigins(f, call.Args[3], 0) {
+							if oc, ok := an.Unparen(o).(*ast.CallExpr); ok && an.CalleeName(info, oc) == "(*jet.Template).operand" {
+								okSign = got["itemMinus"] && got["itemAdd"]
+							}
 						}
 					}
 				}
